@@ -75,6 +75,8 @@ def flow_ops(shape):
         ops += [["alloc", R, "a", 16.0], ["alloc", R, "b", -8.0], ["reb", R, "a", 0.5], ["close", R, "a"], ["transact", R, "b", 3.0], ["flatten", R]]
         ops += [["batch", [["adjust", R, 16.0, True], ["alloc", R, "a", 16.0]]]]
         ops += [["batch", [["adjust", R, 16.0, True], ["adjust", R, -16.0, True]]]]
+        # a trade requested with update=True and the clock moved before anything was read
+        ops += [["seq", [["alloc", R, "a", 16.0], ["next_raw"]]], ["seq", [["transact", R, "b", 3.0], ["next_raw"]]]]
     elif shape == "T2":
         ops += [["alloc", R, "s1", 32.0], ["alloc", R, "s1", -8.0], ["alloc", R, "s2", 16.0], ["alloc", ["s1"], "a", 8.0], ["alloc", ["s2"], "a", 8.0]]
         ops += [["reb", R, "s1", 0.5], ["close", R, "s1"], ["flatten", R], ["allocself", ["s1"], 8.0], ["adjust", ["s1"], 4.0, False]]
